@@ -229,8 +229,13 @@ func c10Mutations(typ string, base ref.V) []payMut {
 		oor("nonce", fmt.Sprintf("len=%d", n), ref.Bytes(make([]byte, n)), true)
 	}
 	oor("nonce", "len=12", ref.Bytes(make([]byte, 12)), false)
-	for _, c := range []string{"", "a", "a/b", "/A", "/a/B", "/a/", "//"} {
+	for _, c := range []string{"", "a", "a/b", "/A", "/a/B", "/a/", "//", "/É", "/a/É/b", "/Σ", "/crud/Ⅳ", "/msg/Ⓐ", "/Ａ"} {
+		// (non-ASCII capitals, and Roman-numeral / circled / full-width capitals, which are upper-case
+		// by the Unicode property as well as by "changed by lower-casing")
 		oor("cmd", "invalid:"+c, ref.Str(c), true)
+	}
+	for _, c := range []string{"/é", "/crud/ⅳ", "/a//b", "/ほげ"} {
+		oor("cmd", "valid:"+c, ref.Str(c), false)
 	}
 	for _, f := range []string{"iss", "aud", "sub"} {
 		for _, d := range []string{"", "did:web:example.com", "did:key:", "did:key:zNotBase58!", "did:key:f00", "not a did"} {
